@@ -29,6 +29,9 @@ func checkC15(c *Ctx) {
 	}
 	c.R.Count("monitor types", len(mons))
 	c.R.Floor("condition variables of service.buffer", len(buf.Conds), 2)
+	// the per-connection write mutex is the serialisation layer around the outgoing ring: held on an exit it
+	// blocks every later write to that ring
+	lockBalance(c, func(cl string) bool { return cl == "service.service.wmu" }, "write-mutex")
 	nfun := lockBalance(c, isCondLockClass, "cond")
 	c.R.Floor("functions operating a cond lock", nfun, 6)
 	w, b, s := monitorRules(c, buf)
